@@ -242,7 +242,7 @@ package redisemu
 //@ requires [C08,C16] locked: held
 //@ modifies alloc storeKey storeList listItem redisDict.buckets redisDict.count redisDict.removals redisDict.dirty redisDictItem redisDictIter ghost.mutated
 //@ ensures result != nil && result.id == newId && result.flags == sk.flags && result.expiresAt == sk.expiresAt
-//@ ensures [C06] wf: skWF(result)
+//@ ensures [C06,C01] wf: skWF(result)
 //@ loopinv held
 // C06: the copy is independent of the original. Slices are values in the
 // verifier's memory model (two slices never alias there), so independence of
